@@ -622,6 +622,34 @@ pub fn replay_sweep(kind: &str, case: &Value) -> Option<Vec<(usize, String, Stri
             let route = ROUTES.iter().position(|r| Some(*r) == case.get("route").and_then(|v| v.as_str()))?;
             ctor_case(route, case.get("text")?.as_str()?)
         }
+        "short_value" => {
+            let ty = case.get("ty")?.as_str()?;
+            let v = case.get("v")?;
+            let wide: i128 = v.as_str().and_then(|s| s.parse().ok()).or_else(|| v.as_i64().map(|x| x as i128)).unwrap_or(0);
+            macro_rules! one {
+                ($t:ty) => {{
+                    let x = wide as $t;
+                    if ty.starts_with("nz_") { short_value_case(core::num::NonZero::<$t>::new(x)?, ty).map(|_| ()) } else { short_value_case(x, ty).map(|_| ()) }
+                }};
+            }
+            match ty.trim_start_matches("nz_") {
+                "bool" => short_value_case(v.as_str() == Some("true"), "bool").map(|_| ()),
+                "char" | "char_from" => short_value_case(char::from_u32(v.as_u64()? as u32)?, "char").map(|_| ()),
+                "i8" => one!(i8),
+                "u8" => one!(u8),
+                "i16" => one!(i16),
+                "u16" => one!(u16),
+                "i32" => one!(i32),
+                "u32" => one!(u32),
+                "i64" => one!(i64),
+                "u64" => one!(u64),
+                "i128" => one!(i128),
+                "isize" => one!(isize),
+                "usize" => one!(usize),
+                "u128" => short_value_case(v.as_str()?.parse::<u128>().ok()?, "u128").map(|_| ()),
+                _ => return None,
+            }
+        }
         _ => return None,
     };
     Some(match r {
